@@ -129,11 +129,24 @@ def evaluate_single(u, fn, ltag, lval, rtag, rval, tol):
             names.append(n.get("name"))
             n = A.strip_casts(A.kids(n)[0])
         if n.get("kind") == "DeclRefExpr":
-            return n["referencedDecl"]["id"], list(reversed(names))
+            rid = n["referencedDecl"]["id"]
+            v_ = holder["ev"].env.get(rid) if "ev" in holder else None
+            if isinstance(v_, tuple) and v_ and v_[0] == "subobject":
+                # a pointer / reference to a member struct of one of the two values (`&_lhs->val.b` handed to a helper)
+                return v_[1], v_[2] + list(reversed(names))
+            return rid, list(reversed(names))
         return None, None
+    holder = {}
 
     def hook(n, ev):
         k = n.get("kind")
+        if k == "UnaryOperator" and n.get("opcode") == "&" and A.strip_casts(A.kids(n)[0]).get("kind") == "MemberExpr":
+            root, names = chain(A.kids(n)[0])
+            if root in objs:
+                key = ".".join(x for x in names if x != "val")
+                if any(k_.startswith(key + ".") for k_ in objs[root]):
+                    return ("subobject", root, [x for x in names if x != "val"])
+            return NotImplemented
         if k == "MemberExpr":
             root, names = chain(n)
             if root in objs:
@@ -141,6 +154,8 @@ def evaluate_single(u, fn, ltag, lval, rtag, rval, tol):
                 o = objs[root]
                 if key in o:
                     return o[key]
+                if any(k_.startswith(key + ".") for k_ in o):
+                    return ("subobject", root, [x for x in names if x != "val"])     # the member struct as a whole
                 raise WrongMember("reads union member .%s of a value of type '%s' (%s)" % (key, chr(o["type"]), A.where(n)))
             if root == opt_id and names == ["float_tolerance"]:
                 return float(tol)
@@ -170,6 +185,7 @@ def evaluate_single(u, fn, ltag, lval, rtag, rval, tol):
             return ev.call_function(u, fns_[0], args)       # a file-local helper (option defaulting, array kind, ...)
         raise FD.Unknown("call to " + str(name), n)
     ev = FD.Eval(env={opt_id: 1}, call=call, node_hook=hook)
+    holder["ev"] = ev
     try:
         ev.run(u.body(fn))
     except FD._Return as r:
